@@ -56,28 +56,51 @@ Proof. vm_compute. repeat split. Qed.
 (* The pattern is handed to the engine wrapped in a group whose end is anchored: "(" inside_group(P) ")\'" .  Whatever P is, the
    text written inside cannot close that group: read back, it has no ")" outside brackets, unescaped, at depth 0.  (The reading of
    groups - [closed_early] - is a model of the engine's lexer: backslash pairs, bracket expressions up to their "]".) *)
-Theorem C17_wrapper_never_closed_early : forall p, closed_early QT 0 (inside_group true true false p) = false.
+Theorem C17_wrapper_never_closed_early : forall p, closed_early QT 0 (inside_group true true false false false p) = false.
 Proof. exact inside_group_never_closes. Qed.
 Print Assumptions C17_wrapper_never_closed_early.
 
-(* The emacs syntax has no character classes (and no extended groups): a pattern without a backslash is handed over as it is -
-   "[[:digit:]]" stays the bracket expression "[[:digit:]" followed by "]" that it is there. *)
+(* The emacs syntax has no character classes (and no extended groups): a pattern without a backslash and without a collating
+   symbol ("[.x.]", "[=x=]" naming an ordinary character: the engine has none, the character is written instead) is handed over
+   as it is - "[[:digit:]]" stays the bracket expression "[[:digit:]" followed by "]" that it is there. *)
 Theorem C17_emacs_text_unchanged : forall p,
-  forallb (fun c => negb (Nat.eqb c c_bs)) p = true -> inside_group false false false p = p.
+  forallb (fun c => negb (Nat.eqb c c_bs)) p = true -> collfree p = true -> inside_group false false false false false p = p.
 Proof. exact emacs_text_unchanged. Qed.
 Print Assumptions C17_emacs_text_unchanged.
 
+(* grep and posix-basic write their operators with a backslash, and GNU takes them for operators only where there is something to
+   repeat: the spelling handed to the engine (grep: "\{" with nothing to repeat is a brace; posix-basic: "\+" and "\?" behind
+   something to repeat are the intervals "\{1,\}" and "\{0,1\}") touches nothing in a pattern without a backslash, and is a
+   fixed point - read again by the same rules the spelled text holds nothing left to spell, so every operator has been read
+   in the state the rules give it. *)
+Theorem C17_basic_spelling_needs_a_backslash : forall gb pq nl p,
+  forallb (fun c => negb (Nat.eqb c c_bs)) p = true -> spell gb pq nl p = p.
+Proof. exact spell_no_backslash. Qed.
+Print Assumptions C17_basic_spelling_needs_a_backslash.
+Theorem C17_basic_spelling_fixed_point : forall gb pq nl p, spell gb pq nl (spell gb pq nl p) = spell gb pq nl p.
+Proof. exact spell_idempotent. Qed.
+Print Assumptions C17_basic_spelling_fixed_point.
+
 (* "./a)|./b" ; "(a)(b)\2" ; "\10" ; "[)]" ; "x[[:punct:]^]" ; posix-basic "\(a\)\1" *)
 Example C17_wrap_witness :
-  inside_group true true false [46; 47; 97; 41; 124; 46; 47; 98] = [46; 47; 97; 92; 41; 124; 46; 47; 98] /\
-  inside_group true true false [40; 97; 41; 40; 98; 41; 92; 50] = [40; 97; 41; 40; 98; 41; 92; 51] /\
-  inside_group true true false [92; 49; 48] = [92; 50; 91; 48; 93] /\
-  inside_group true true false [91; 41; 93] = [91; 41; 93] /\
-  inside_group true true false [120; 91; 91; 58; 112; 117; 110; 99; 116; 58; 93; 94; 93] = [120; 91; 33; 45; 47; 58; 45; 64; 91; 45; 96; 123; 45; 126; 94; 93] /\
-  inside_group false true false [92; 40; 97; 92; 41; 92; 49] = [92; 40; 97; 92; 41; 92; 50] /\
+  inside_group true true false false false [46; 47; 97; 41; 124; 46; 47; 98] = [46; 47; 97; 92; 41; 124; 46; 47; 98] /\
+  inside_group true true false false false [40; 97; 41; 40; 98; 41; 92; 50] = [40; 97; 41; 40; 98; 41; 92; 51] /\
+  inside_group true true false false false [92; 49; 48] = [92; 50; 91; 48; 93] /\
+  inside_group true true false false false [91; 41; 93] = [91; 41; 93] /\
+  inside_group true true false false false [120; 91; 91; 58; 112; 117; 110; 99; 116; 58; 93; 94; 93] = [120; 91; 33; 45; 47; 58; 45; 64; 91; 45; 96; 123; 45; 126; 94; 93] /\
+  inside_group false true false false true [92; 40; 97; 92; 41; 92; 49] = [92; 40; 97; 92; 41; 92; 50] /\
   closed_early QT 0 [46; 47; 97; 41; 124; 46; 47; 98] = true /\
   (* grep: "a<NL>b" is "a\|b", but not inside brackets nor after a backslash; emacs: "[[:digit:]]" as it is *)
-  inside_group false true true [97; 10; 98; 91; 10; 93; 92; 10] = [97; 92; 124; 98; 91; 10; 93; 92; 10] /\
-  inside_group false false false [91; 91; 58; 100; 105; 103; 105; 116; 58; 93; 93] = [91; 91; 58; 100; 105; 103; 105; 116; 58; 93; 93] /\
-  inside_group false true false [91; 91; 58; 100; 105; 103; 105; 116; 58; 93; 93] = [91; 48; 45; 57; 93].
+  inside_group false true true true false [97; 10; 98; 91; 10; 93; 92; 10] = [97; 92; 124; 98; 91; 10; 93; 92; 10] /\
+  inside_group false false false false false [91; 91; 58; 100; 105; 103; 105; 116; 58; 93; 93] = [91; 91; 58; 100; 105; 103; 105; 116; 58; 93; 93] /\
+  inside_group false true false false true [91; 91; 58; 100; 105; 103; 105; 116; 58; 93; 93] = [91; 48; 45; 57; 93].
 Proof. vm_compute. repeat split. Qed.
+(* grep "\(\{1\}\)x\{2\}" -> "\({1\}\)x\{2\}" ; posix-basic "a\+\(\+b\?\)" -> "a\{1,\}\(\+b\{0,1\}\)" ; "[[=a=]b[.-.]]" -> "[ab[.-.]]" *)
+Example C17_spelling_witness :
+  inside_group false true true true false [92; 40; 92; 123; 49; 92; 125; 92; 41; 120; 92; 123; 50; 92; 125]
+    = [92; 40; 123; 49; 92; 125; 92; 41; 120; 92; 123; 50; 92; 125] /\
+  inside_group false true false false true [97; 92; 43; 92; 40; 92; 43; 98; 92; 63; 92; 41]
+    = [97; 92; 123; 49; 44; 92; 125; 92; 40; 92; 43; 98; 92; 123; 48; 44; 49; 92; 125; 92; 41] /\
+  inside_group true true false false false [91; 91; 61; 97; 61; 93; 98; 91; 46; 45; 46; 93; 93] = [91; 97; 98; 91; 46; 45; 46; 93; 93].
+Proof. vm_compute. repeat split. Qed.
+
